@@ -2,6 +2,8 @@
 # probes detection with mechanical mutants (checker/cmd/mutloop), one per site of the library's non-test source:
 #   break K  : loop leaves after K iterations      skip K : loop skips iteration K+1
 #   lit      : integer literal + 1                 errnil : `return …, err` returns nil     cmp : < <-> <=, > <-> >=
+#   del      : assignment / call statement dropped  neg : if condition negated   andor : && <-> ||   eq : == <-> !=
+#   arith    : + <-> -                              ctl : break <-> continue
 # every mutant: scratch worktree, build, pinned suite (2 min timeout); mutants that survive the suite are run against
 # all 20 quick checks. usage: EVALSA=<binary> tools/mutate_run.sh MODE [K]   (one line per mutant on stdout)
 cd /verif
